@@ -264,7 +264,9 @@ func (m *Manager) AddBlocks(blocks []types.Block) error {
 			cs, _ = m.store.State(bid)
 			continue
 		} else if b.ParentID != cs.Index.ID {
-			if cs, ok = m.store.State(b.ParentID); !ok {
+			// the store also holds the state that precedes the genesis block (under
+			// the zero ID); only the genesis block itself has it as its parent
+			if cs, ok = m.store.State(b.ParentID); !ok || b.ParentID == (types.BlockID{}) {
 				return fmt.Errorf("missing parent state for block %v", bid)
 			}
 		}
